@@ -5,77 +5,78 @@ import PyIpmi.Gen.Tables
 namespace PyIpmi.Model.Api
 open PyIpmi PyIpmi.Codec PyIpmi.Spec.Bmc PyIpmi.Gen.Tables
 
-def api_get_chassis_status (s : BmcState) : Outcome (BmcState × Result) :=
-  (transact reqGetChassisStatus rspGetChassisStatus 0 (fresh reqGetChassisStatus) s).bind fun (s', v) =>
-    .ok (s', .chassis {
-      powerOn := n2b (bitAt v 1 0), overload := n2b (bitAt v 1 1), interlock := n2b (bitAt v 1 2),
-      fault := n2b (bitAt v 1 3), controlFault := n2b (bitAt v 1 4), restorePolicy := bitAt v 1 5,
-      evAcFailed := n2b (bitAt v 2 0), evOverload := n2b (bitAt v 2 1), evInterlock := n2b (bitAt v 2 2),
-      evFault := n2b (bitAt v 2 3), evIpmiOn := n2b (bitAt v 2 4),
-      intrusion := n2b (bitAt v 3 0), lockout := n2b (bitAt v 3 1), driveFault := n2b (bitAt v 3 2),
-      coolingFault := n2b (bitAt v 3 3), idState := bitAt v 3 4, idSupported := n2b (bitAt v 3 5),
-      frontPanel := optIntAt v 4 })
+def api_get_chassis_status : Exchange :=
+  { req := reqGetChassisStatus, rsp := rspGetChassisStatus, vals := .ok (fresh reqGetChassisStatus),
+    post := fun v =>
+      .ok (.chassis {
+        powerOn := n2b (bitAt v 1 0), overload := n2b (bitAt v 1 1), interlock := n2b (bitAt v 1 2),
+        fault := n2b (bitAt v 1 3), controlFault := n2b (bitAt v 1 4), restorePolicy := bitAt v 1 5,
+        evAcFailed := n2b (bitAt v 2 0), evOverload := n2b (bitAt v 2 1), evInterlock := n2b (bitAt v 2 2),
+        evFault := n2b (bitAt v 2 3), evIpmiOn := n2b (bitAt v 2 4),
+        intrusion := n2b (bitAt v 3 0), lockout := n2b (bitAt v 3 1), driveFault := n2b (bitAt v 3 2),
+        coolingFault := n2b (bitAt v 3 3), idState := bitAt v 3 4, idSupported := n2b (bitAt v 3 5),
+        frontPanel := optIntAt v 4 }) }
 
-def api_chassis_control (opt : Nat) (s : BmcState) : Outcome (BmcState × Result) :=
-  (transact reqChassisControl rspChassisControl 0 (setBit (fresh reqChassisControl) 0 0 opt) s).bind fun (s', _) =>
-    .ok (s', .unit)
+def api_chassis_control (opt : Nat) : Exchange :=
+  { req := reqChassisControl, rsp := rspChassisControl, vals := .ok (setBit (fresh reqChassisControl) 0 0 opt),
+    post := fun _ => .ok .unit }
 
 /-- chassis_control_power_down … soft_shutdown: the option is whatever constant the wrapper passes -/
-def api_chassis_control_named (idx : Nat) (s : BmcState) : Outcome (BmcState × Result) :=
+def api_chassis_control_named (idx : Nat) : Exchange :=
   match chassisControlOption[idx]? with
-  | some opt => api_chassis_control opt s
-  | none => .pyError "AttributeError"
+  | some opt => api_chassis_control opt
+  | none => .raise (.pyError "AttributeError")
 
-def getBootOptions (sel setSel blk : Nat) (s : BmcState) : Outcome (BmcState × List Nat) :=
+/-- get_system_boot_options, continued by `k` on the parameter data -/
+def getBootOptions (sel setSel blk : Nat) (k : List Nat → Outcome Result) : Exchange :=
   let r := fresh reqGetSystemBootOptions
   let r := setBit r 0 0 sel
   let r := setInt r 1 setSel
   let r := setInt r 2 blk
-  (transact reqGetSystemBootOptions rspGetSystemBootOptions 0 r s).bind fun (s', v) => .ok (s', arrAt v 3)
+  { req := reqGetSystemBootOptions, rsp := rspGetSystemBootOptions, vals := .ok r, post := fun v => k (arrAt v 3) }
 
-def api_get_system_boot_options (sel setSel blk : Nat) (s : BmcState) : Outcome (BmcState × Result) :=
-  (getBootOptions sel setSel blk s).bind fun (s', d) => .ok (s', .bytes d)
+def api_get_system_boot_options (sel setSel blk : Nat) : Exchange :=
+  getBootOptions sel setSel blk fun d => .ok (.bytes d)
 
-def api_set_system_boot_options (sel : Nat) (data : List Nat) (invalid : Bool) (s : BmcState) :
-    Outcome (BmcState × Result) :=
+def api_set_system_boot_options (sel : Nat) (data : List Nat) (invalid : Bool) : Exchange :=
   let r := fresh reqSetSystemBootOptions
   let r := setBit r 0 1 (b2n invalid)
   let r := setBit r 0 0 sel
   let r := setArr r 1 data
-  (transact reqSetSystemBootOptions rspSetSystemBootOptions 0 r s).bind fun (s', _) => .ok (s', .unit)
+  { req := reqSetSystemBootOptions, rsp := rspSetSystemBootOptions, vals := .ok r, post := fun _ => .ok .unit }
 
-def api_get_boot_mode (s : BmcState) : Outcome (BmcState × Result) :=
-  (getBootOptions bootFlagsSelector 0 0 s).bind fun (s', d) =>
+def api_get_boot_mode : Exchange :=
+  getBootOptions bootFlagsSelector 0 0 fun d =>
     match d with
-    | d0 :: _ => .ok (s', .bool (d0 / 32 % 2 != 0))
+    | d0 :: _ => .ok (.bool (d0 / 32 % 2 != 0))
     | [] => .pyError "IndexError"
 
-def api_get_boot_persistency (s : BmcState) : Outcome (BmcState × Result) :=
-  (getBootOptions bootFlagsSelector 0 0 s).bind fun (s', d) =>
+def api_get_boot_persistency : Exchange :=
+  getBootOptions bootFlagsSelector 0 0 fun d =>
     match d with
-    | d0 :: _ => .ok (s', .bool (d0 / 64 % 2 == 1))
+    | d0 :: _ => .ok (.bool (d0 / 64 % 2 == 1))
     | [] => .pyError "IndexError"
 
 /-- data_to_boot_device: `CONVERT_RAW_TO_BOOT_DEVICE[(data[1] >> 2) & 0b1111]` -/
-def api_get_boot_device (s : BmcState) : Outcome (BmcState × Result) :=
-  (getBootOptions bootFlagsSelector 0 0 s).bind fun (s', d) =>
+def api_get_boot_device : Exchange :=
+  getBootOptions bootFlagsSelector 0 0 fun d =>
     match d with
     | _ :: d1 :: _ =>
       match lookup rawToBootDevice (d1 / 4 % 16) with
-      | some i => .ok (s', .bootDev (BootDev.all[i]?))
+      | some i => .ok (.bootDev (BootDev.all[i]?))
       | none => .pyError "KeyError"
     | _ => .pyError "IndexError"
 
 def bootDevIdx (d : BootDev) : Nat := BootDev.all.idxOf d
 
 /-- boot_options_to_data + set_system_boot_options(BOOT_PARAMETER_BOOT_FLAGS, data) -/
-def api_set_boot_options (dev : BootDev) (efi persistent : Bool) (s : BmcState) : Outcome (BmcState × Result) :=
+def api_set_boot_options (dev : BootDev) (efi persistent : Bool) : Exchange :=
   match lookup bootDeviceToRaw (bootDevIdx dev) with
-  | none => .pyError "ValueError"
+  | none => .raise (.pyError "ValueError")
   | some raw =>
     let mode := if efi then 32 else 0
     let pers := if persistent then 192 else 128
-    if raw * 4 ≥ 256 then .pyError "OverflowError"
-    else api_set_system_boot_options bootFlagsSelector [mode ||| pers, raw * 4, 0, 0, 0] false s
+    if raw * 4 ≥ 256 then .raise (.pyError "OverflowError")
+    else api_set_system_boot_options bootFlagsSelector [mode ||| pers, raw * 4, 0, 0, 0] false
 
 end PyIpmi.Model.Api
